@@ -27,8 +27,11 @@ type MerklePatriciaTrie struct {
 	ChangeCollector ChangeCollectorI
 	Version         Sequence
 	missingNodeKeys []Key
-	cache           *statecache.TransactionCache
-	deleteNodes     []Node // delete nodes that added when sync from remote
+	// missingNodeKeysMu guards missingNodeKeys: lookups record missing nodes while
+	// holding the trie mutex only for reading
+	missingNodeKeysMu sync.Mutex
+	cache             *statecache.TransactionCache
+	deleteNodes       []Node // delete nodes that added when sync from remote
 }
 
 /*NewMerklePatriciaTrie - create a new patricia merkle trie */
@@ -76,14 +79,16 @@ func (mpt *MerklePatriciaTrie) getNode(key Key) (n Node, err error) {
 }
 
 func (mpt *MerklePatriciaTrie) addMissingNodeKeys(key Key) {
+	mpt.missingNodeKeysMu.Lock()
 	mpt.missingNodeKeys = append(mpt.missingNodeKeys, key)
+	mpt.missingNodeKeysMu.Unlock()
 }
 
 func (mpt *MerklePatriciaTrie) GetMissingNodeKeys() []Key {
-	mpt.mutex.RLock()
+	mpt.missingNodeKeysMu.Lock()
 	keys := make([]Key, len(mpt.missingNodeKeys))
 	copy(keys, mpt.missingNodeKeys)
-	mpt.mutex.RUnlock()
+	mpt.missingNodeKeysMu.Unlock()
 	return keys
 }
 
